@@ -609,6 +609,7 @@ waitCrash:
 	lastCount := -1
 	var miss []int
 	var panics []string
+	laterSnapshot := "" // offsets file a third start began from
 	for {
 		miss = missing()
 		if len(miss) == 0 {
@@ -692,7 +693,7 @@ waitCrash:
 				default:
 					r3.stop()
 					panics = nil // judged below like any other case: r1, r2 and r3 together must have delivered every line
-					snapshot = string(snap3)
+					laterSnapshot = string(snap3)
 				}
 			}
 		}
@@ -707,7 +708,10 @@ waitCrash:
 		// describe the lost lines; recognise the known shape: the line's stream has no entry in the
 		// snapshot of its file while other streams of that file have one (restart seeks to the minimum
 		// SAVED offset, which lies behind the line)
-		snap := parseOffsetsSnapshot(snapshot)
+		snaps := []map[uint64][]map[string]bool{parseOffsetsSnapshot(snapshot)}
+		if laterSnapshot != "" {
+			snaps = append(snaps, parseOffsetsSnapshot(laterSnapshot)) // a line may be lost by either restart
+		}
 		var desc []string
 		allKnownShape := true
 		w.mu.Lock()
@@ -715,11 +719,13 @@ waitCrash:
 			// the restart seeks an entry to the minimum offset SAVED in it; a line is lost that way when some
 			// entry of its file has saved streams but not the line's stream
 			knownShape, saved := false, false
-			for _, streams := range snap[w.lineIno[id]] {
-				if len(streams) > 0 && !streams[w.lineStr[id]] {
-					knownShape = true
+			for _, snap := range snaps {
+				for _, streams := range snap[w.lineIno[id]] {
+					if len(streams) > 0 && !streams[w.lineStr[id]] {
+						knownShape = true
+					}
+					saved = saved || streams[w.lineStr[id]]
 				}
-				saved = saved || streams[w.lineStr[id]]
 			}
 			if !knownShape {
 				allKnownShape = false
@@ -730,7 +736,7 @@ waitCrash:
 		if allKnownShape {
 			sig = "line-lost:stream-without-saved-offset"
 		}
-		o.Failf(P, sig, "%d of %d complete lines were delivered neither before the kill nor after the restart: %s; offsets file at the kill (present=%v):\n%s", len(miss), total, strings.Join(desc, ", "), haveOffsets, snapshot)
+		o.Failf(P, sig, "%d of %d complete lines were delivered neither before the kill nor after the restart: %s; offsets file at the kill (present=%v):\n%s%s", len(miss), total, strings.Join(desc, ", "), haveOffsets, snapshot, map[bool]string{false: "", true: "\noffsets file at the third start:\n" + laterSnapshot}[laterSnapshot != ""])
 	}
 	// classes / non-triviality
 	nstreams := map[string]bool{}
